@@ -209,6 +209,11 @@ def run(ctx, p):
     t2 = d["t"] * s[2]
     B = ctx.call(s2, pts, t2)
     A = d["sol"]
+    if p["seed"] % 2 == 1 and e["cost"] < 1:
+        # both unit systems alive at the same time (the way a user compares them): the original problem is evaluated
+        # again now that the solver of the scaled one has been constructed and used
+        A = ctx.call(d["solver"], np.asarray(d["points"], dtype=float), d["t"])
+        suffix = " [original evaluated after the scaled solver was built]" + suffix      # (recorded findings match on the end of the branch)
     tol = ITER_TOL.get(ent, 1e-9)
     name = cls.__name__
     floors = {}
